@@ -26,6 +26,7 @@ func init() {
 }
 
 func runC14(c *Ctx) {
+	c.retryAfterDatesGoThroughParseTime()
 	c.rule("O1", "retry.Do is always bounded (Attempts) and context-bound (Context from a context parameter); RetryIf also passes RetryIf(cond) and LastErrorOnly(true), bounds attempts by RetryMax, runs fn once when disabled and converts context errors", 5)
 	c.rule("O12", "the function RetryIf hands to retry.Do returns the operation's own error unchanged: the caller's retry condition is asked about the error the attempt produced", 1)
 	c.contextConverterGoesByIdentity("O13", "RetryIf returns what this function makes of the last error: an attempt that failed with an error without a description (errors.New(\"\")) would make RetryIf / RetryOnError return nil although no attempt succeeded")
